@@ -41,7 +41,10 @@ def _id(x):
         return str(x)
     if isinstance(i, str) and i.startswith('*'):
         return f"{i}[{getattr(x, '_ili', None)}]"     # placeholders differ by their ILI
-    return i
+    lexid = getattr(x, '_lexid', None)
+    # two selected lexicons may use one id for different entities: tell them apart by the
+    # row number of their lexicon (all processes read the same database)
+    return i if lexid is None else f'{i}#{lexid}'
 
 
 def _ids(xs):
